@@ -22,8 +22,15 @@ import (
 
 var vclock = time.Date(2030, 1, 1, 0, 0, 0, 0, time.UTC)
 
+// clockAutoTick > 0 makes every reading of the virtual clock advance it a little, like the
+// real monotonic clock does (two readings are never identical).
+var clockAutoTick time.Duration
+
 func installClock() {
-	util.VerifNow = func() time.Time { return vclock }
+	util.VerifNow = func() time.Time {
+		vclock = vclock.Add(clockAutoTick)
+		return vclock
+	}
 }
 
 func advance(d time.Duration) { vclock = vclock.Add(d) }
